@@ -157,6 +157,9 @@ def graph_oracle(ids, edges):
     return o
 
 
+_GRAPH_MD = {}
+
+
 def impl_graph(case):
     from geff.validate import graph as G
     from geff.validate.data import ValidationConfig, validate_data
@@ -176,8 +179,10 @@ def impl_graph(case):
         out["repeated"] = {"valid": bool(v), "off": [[int(a), int(b)] for a, b in off]}
     except Exception as ex:  # noqa: BLE001
         out["exc"] = type(ex).__name__
+    if not _GRAPH_MD:   # validate_data only reads the metadata: one object per directedness and process
+        _GRAPH_MD.update({True: _meta(directed=True), False: _meta(directed=False)})
     for d in (True, False):
-        g = {"metadata": _meta(directed=d), "node_ids": ids.copy(), "edge_ids": edges.copy(),
+        g = {"metadata": _GRAPH_MD[d], "node_ids": ids.copy(), "edge_ids": edges.copy(),
              "node_props": {}, "edge_props": {}}
         out["stage_directed" if d else "stage_undirected"] = _outcome(
             lambda g=g: validate_data(g, ValidationConfig(graph=True)))
@@ -1029,7 +1034,11 @@ def judge_history(ck, c, im):
                     c, r, "inputs unchanged")
         got = None if r["o"] == "ok" else (r.get("call") if form == "dispatch" else
                                           ("graph-error" if r["o"] == "ValueError" and r.get("call") in CALLS[:4] else r["o"]))
-        if r["o"] not in ("ok", "ValueError"):
+        if (r["o"] == "TypeError" and c["variant"] == "bigendian" and c["geff"].get("dtype") == "uint64"
+                and max(c["geff"]["ids"] + [x for e in c["geff"]["edges"] for x in e]) >= 2 ** 63):
+            ck.fail("C12:bigendian-uint64-isin-typeerror",
+                    "validate_nodes_for_edges raises numpy's TypeError on big-endian uint64 ids >= 2^63 (np.isin table method)", c, r, want)
+        elif r["o"] not in ("ok", "ValueError"):
             key = "C12:array-variant-exception" if c["variant"] != "plain" else "C12:history-exception"
             ck.fail(key, f"validate_data raised {r['o']}: {r.get('msg', '')} on {c['variant']} input arrays (step {k})", c, r, want)
         elif got != want:
@@ -1273,6 +1282,8 @@ def run(ck: common.Check):
             judge_lineage(ck, c, im, mo[0] if mo else None)
         elif k == "history":
             judge_history(ck, c, im)
+        elif k == "dispatch_store":
+            judge_dispatch_store(ck, c, im)
     # the dispatch grid through stores and the reader (one store per case, read under all 32 configs)
     for c, im in zip(store_cases, common.pmap(impl_dispatch_store, store_cases, chunksize=1) if len(store_cases) >= 64
                      else [impl_dispatch_store(c) for c in store_cases]):
@@ -1303,6 +1314,9 @@ def run(ck: common.Check):
         "clearly outside (asymmetry >= 0.1, an eigenvalue <= -0.1) the set, for 1, 2 and 3 space axes, masked rows holding junk",
         "radii: the model sees a float only through its binary64 bit pattern and the comparison < 0 (NaN and -0.0 are not negative)",
         "edge arrays have shape (E, 2) and the same dtype as the node ids (InMemoryGeff invariant, checked by structure validation)",
+        "array layout (read-only, non-contiguous, Fortran order, non-native byte order) is beneath the model; it is varied in "
+        "the correspondence (kind history); numpy 2.5's np.isin raises TypeError for big-endian uint64 arrays holding values "
+        ">= 2^63 (known finding C12:bigendian-uint64-isin-typeerror)",
     ]
 
 
